@@ -258,7 +258,9 @@ static World* makeWorld(const JV& w, const string& dir) {
   std::ostringstream csv;
   size_t k = 0;
   for (auto& m : w["msgs"].a) {
-    Slot s; s.kind = m["k"].s; s.circuit = m["c"].s; s.name = m["n"].s; s.level = codes(m["lv"]);
+    Slot s; s.kind = m["k"].s; s.level = codes(m["lv"]);
+    s.circuit = m["c"].t == JV::ARR ? codes(m["c"]) : m["c"].s;   // growth worlds carry texts as character codes
+    s.name = m["n"].t == JV::ARR ? codes(m["n"]) : m["n"].s;
     k++;
     bool wr = s.kind == "w";
     s.id = {0xb5, 0x09, static_cast<uint8_t>(wr ? 0x0e : 0x0d), static_cast<uint8_t>(k)};
